@@ -491,12 +491,54 @@ def words(name: str) -> List[str]:
     return out
 
 
+def _trim_right(s: str) -> str:
+    while s and not s[-1].isalnum():
+        s = s[:-1]
+    return s
+
+
 def pascal(name: str) -> str:
-    return ''.join(w[:1].upper() + w[1:].lower() for w in words(name))
+    """PascalCase as the documented dependency (Inflector 0.11.4, cases/case/mod.rs::to_case_camel_like with the options of
+    to_pascal_case) defines it, transcribed from its source: a new word starts after a separator, after a digit, and at a
+    lower->upper transition; inside a word every letter is lower-cased (so an acronym run URLType becomes Urltype)."""
+    new_word, last_char, found_real, out = True, ' ', False, []
+    for ch in _trim_right(name):
+        if not ch.isalnum() and found_real:
+            new_word = True
+        elif not found_real and not ch.isalnum():
+            continue
+        elif ch.isnumeric():
+            found_real = True
+            new_word = True
+            out.append(ch)
+        elif new_word or (last_char.islower() and ch.isupper() and last_char != ' '):
+            found_real = True
+            new_word = False
+            out.append(ch.upper() if ch.isascii() else ch)
+        else:
+            found_real = True
+            last_char = ch
+            out.append(ch.lower() if ch.isascii() else ch)
+    return ''.join(out)
 
 
 def snake(name: str) -> str:
-    return '_'.join(w.lower() for w in words(name))
+    """snake_case per Inflector's to_case_snake_like(s, "_", "lower") (ASCII names: its byte/char index mix-up does not matter).
+    Its `char_is_uppercase(c)` is `c == c.to_ascii_uppercase()`, which is also true of digits: line1 -> line_1."""
+    first, out = True, []
+    t = _trim_right(name)
+    for i, ch in enumerate(t):
+        if not ch.isalnum():
+            if not first:
+                first = True
+                out.append('_')
+        elif (not first) and not ('a' <= ch <= 'z') and ((name[i + 1] if i + 1 < len(name) else 'A').islower() or (name[i - 1] if i >= 1 else 'A').islower()):
+            first = False
+            out.append('_' + (ch.lower() if ch.isascii() else ch))
+        else:
+            first = False
+            out.append(ch.lower() if ch.isascii() else ch)
+    return ''.join(out)
 
 
 def simple_name(name: str) -> bool:
